@@ -102,6 +102,14 @@ pub trait Property: Sync {
     fn repair(&self, _sc: &mut Scenario) -> bool {
         true
     }
+    /// how many runs the supervisor repeats with one fresh worker process each
+    fn fresh_runs(&self, tier: Tier) -> u64 {
+        if tier == Tier::Thorough {
+            2000
+        } else {
+            200
+        }
+    }
     /// re-run one RealWorld case from a replay file (world = "real")
     fn replay_real(&self, _sc: &Scenario) -> Option<Violation> {
         None
